@@ -12,7 +12,8 @@
 (***************************************************************************)
 EXTENDS StateRes
 
-CONSTANTS Start,      \* which creation prefix the room starts from (1..5; 4 and 5: the power levels set users_default)
+CONSTANTS Start,      \* which creation prefix the room starts from (1..8; 4, 5, 8: the power levels set users_default;
+                      \* 6, 7: pl / jr events under a non-empty state key exist)
           Ver,        \* the room version
           MaxFree,    \* number of events after the creation prefix
           ForkFrom,   \* smallest event id that may be used as a prev event of a new event
@@ -63,11 +64,23 @@ Prefix2 ==
 \* (listed, 50) and - before privileged creators - the creator (listed, 100) hold theirs through an entry: the
 \* effective level Eff(users[u], users_default) is what the auth rules and the power ordering (R2) read.  In these
 \* rooms users_default is also a free dimension (kind "pld" below).
-PrefixPud == IF Start = 5 THEN 4 ELSE R50
-Prefix4 ==
+\* Start 8 is the family of both: one model run contains rooms whose event 7 has different contents (in room
+\* versions with sender-chosen event IDs different events may carry one ID; a resolver must not remember across
+\* calls what it read under an ID).
+Prefix4(pud) ==
     Prefix \o
-    << [Ev("pl", "creator", "", "", [InitPL EXCEPT !["bob"] = 3], "", {6}, {1, 2, 3}, 7, 1, 7) EXCEPT !.pud = PrefixPud],
+    << [Ev("pl", "creator", "", "", [InitPL EXCEPT !["bob"] = 3], "", {6}, {1, 2, 3}, 7, 1, 7) EXCEPT !.pud = pud],
        Ev("member", "carol", "carol", "join", NoUsers, "", {7}, {1, 4, 7}, 8, 1, 8) >>
+PrefixPuds == CASE Start = 4 -> {R50} [] Start = 5 -> {4} [] OTHER -> {R50, 4}
+
+\* starting point 7: the second, plus a power-levels and a join-rules event under the state key "x" (9, 10).  They
+\* have the type of a control event but are ordinary entries of the state map: (pl, "") and (pl, "x") are different
+\* keys, every later state holds both, and all state sets of a fork agree on 9 and 10 unless a free event of kind
+\* "plx" / "jrx" replaces them.  Starting point 6 is the second with these two kinds enabled and no such event yet.
+Prefix7 ==
+    Prefix2 \o
+    << Ev("pl", "creator", "x", "", [InitPL EXCEPT !["bob"] = 3], "", {8}, {1, 2, 7}, 9, 1, 9),
+       Ev("jr", "creator", "x", "", NoUsers, "invite", {9}, {1, 2, 7}, 10, 1, 10) >>
 
 \* a third starting point: a side branch with its own power-levels event (7) and a topic authorised by it (8),
 \* a concurrent power-levels event on the main branch (9), and a merge (10).  Rooms that fork after the merge
@@ -93,8 +106,14 @@ InitRoom ==
            /\ after = [i \in 1..8 |-> IF i <= 6 THEN 1..i ELSE IF i = 7 THEN {1, 2, 4, 5, 6, 7} ELSE {1, 2, 4, 5, 6, 7, 8}]
            /\ last = 0
         \/ /\ Start = 3 /\ E = Prefix3.E /\ after = Prefix3.after /\ last = 0
-        \/ /\ Start \in {4, 5} /\ E = Prefix4
+        \/ /\ Start \in {4, 5, 8} /\ \E pud \in PrefixPuds : E = Prefix4(pud)
            /\ after = [i \in 1..8 |-> IF i <= 6 THEN 1..i ELSE IF i = 7 THEN {1, 2, 4, 5, 6, 7} ELSE {1, 2, 4, 5, 6, 7, 8}]
+           /\ last = 0
+        \/ /\ Start = 6 /\ E = Prefix2
+           /\ after = [i \in 1..8 |-> IF i <= 6 THEN 1..i ELSE IF i = 7 THEN {1, 2, 4, 5, 6, 7} ELSE {1, 2, 4, 5, 6, 7, 8}]
+           /\ last = 0
+        \/ /\ Start = 7 /\ E = Prefix7
+           /\ after = [i \in 1..10 |-> IF i <= 6 THEN 1..i ELSE {1, 2, 4, 5, 6} \cup 7..i]
            /\ last = 0
 
 Init == /\ before = {}
@@ -102,7 +121,7 @@ Init == /\ before = {}
         /\ InitRoom
 
 
-Base == CASE Start = 1 -> 6 [] Start \in {2, 4, 5} -> 8 [] OTHER -> 10
+Base == CASE Start = 1 -> 6 [] Start \in {2, 4, 5, 6, 8} -> 8 [] OTHER -> 10
 
 \* ancestors through prev_events
 RECURSIVE PrevReach(_, _, _)
@@ -125,7 +144,11 @@ PLIn(S) == LET pl == ForKey(E, S, <<"pl", "">>) IN IF pl = {} THEN EmptyPL ELSE 
 \* "pl" changes one entry of the users map (users_default is kept), "pld" changes users_default (the users map is
 \* kept); "pld" exists in the rooms whose creation prefix sets users_default (rooms of the other prefixes are shared
 \* with models whose concretisers have no such dimension)
-Kinds == {"join", "leave", "ban", "kick", "invite", "pl", "jr", "topic"} \cup (IF Start \in {4, 5} THEN {"pld"} ELSE {})
+\* "plx" / "jrx" send a power-levels / join-rules event under the state key "x" (the power-levels content: the current
+\* one, or the current one with alice at 50 - the auth rules judge it like any power-levels event); they exist in
+\* the rooms of prefixes 6 and 7
+Kinds == {"join", "leave", "ban", "kick", "invite", "pl", "jr", "topic"} \cup (IF Start \in {4, 5, 8} THEN {"pld"} ELSE {})
+           \cup (IF Start \in {6, 7} THEN {"plx", "jrx"} ELSE {})
 PLTargets == {"alice", "bob", "carol"}
 PLLevels == {1, 3, 4}
 PudLevels == {Absent, R50, 4}
@@ -156,7 +179,10 @@ Send(u, kind, t, lvl, rule, prevs, ts, S) ==
                [] kind = "pl" -> [Ev("pl", u, "", "", [PLIn(S).users EXCEPT ![t] = lvl], "", prevs, {}, depth, ts, i)
                                     EXCEPT !.pud = PLIn(S).users_default]
                [] kind = "pld" -> [Ev("pl", u, "", "", PLIn(S).users, "", prevs, {}, depth, ts, i) EXCEPT !.pud = lvl]
+               [] kind = "plx" -> [Ev("pl", u, "x", "", [PLIn(S).users EXCEPT ![t] = lvl], "", prevs, {}, depth, ts, i)
+                                     EXCEPT !.pud = PLIn(S).users_default]
                [] kind = "jr" -> Ev("jr", u, "", "", NoUsers, rule, prevs, {}, depth, ts, i)
+               [] kind = "jrx" -> Ev("jr", u, "x", "", NoUsers, rule, prevs, {}, depth, ts, i)
                [] OTHER -> Ev("topic", u, "", "", NoUsers, "", prevs, {}, depth, ts, i)
            E1 == Append(E, draft)
            auth == {p \in S : KeyOf(E, p) \in NeededKeys(E1, i)}
@@ -188,9 +214,11 @@ Next ==
          \E u \in Users, kind \in Kinds :
             /\ Plausible(S, u, kind) = TRUE
             /\ \E ts \in TSChoices,
-                  t \in (IF kind \in {"ban", "kick", "invite"} THEN Users ELSE IF kind = "pl" THEN PLTargets ELSE {u}),
-                  lvl \in (IF kind = "pl" THEN PLLevels ELSE IF kind = "pld" THEN PudLevels ELSE {0}),
-                  rule \in (IF kind = "jr" THEN {"public", "invite"} ELSE {""}) :
+                  t \in (IF kind \in {"ban", "kick", "invite"} THEN Users ELSE IF kind = "pl" THEN PLTargets
+                         ELSE IF kind = "plx" THEN {"alice"} ELSE {u}),
+                  lvl \in (IF kind = "pl" THEN PLLevels ELSE IF kind = "pld" THEN PudLevels
+                           ELSE IF kind = "plx" THEN {PLIn(S).users["alice"], R50} ELSE {0}),
+                  rule \in (IF kind \in {"jr", "jrx"} THEN {"public", "invite"} ELSE {""}) :
                   Send(u, kind, t, lvl, rule, prevs, ts, S)
 
 Spec == Init /\ [][Next]_vars
